@@ -337,6 +337,26 @@ func TestCheck(t *testing.T) {
 		c.Register("rs", checkRS)
 		c.Register("rs_history", checkRSHist)
 	}, func(c *hx.Ctx) {
+		// (0) before anything else has touched a field in this process: Multiply as the very first
+		// operation (tables filled lazily, or by another operation's side effect, must not matter)
+		for fi, f := range fields {
+			rng := hx.NewRng(c.Seed("first", fi))
+			for k := 0; k < 40; k++ {
+				a, b := 1+rng.Intn(f.ref.Size-1), 1+rng.Intn(f.ref.Size-1)
+				if k == 0 {
+					a, b = 1, 1
+				}
+				want := f.ref.Mul(a, b)
+				got := f.lib.Multiply(a, b)
+				c.Note("first_operation_is_multiply", "field="+f.name, true, hx.HashS("first", f.name, fmt.Sprint(a, b)), func() any { return map[string]any{"field": f.name, "a": a, "b": b} })
+				if got != want {
+					raw, _ := json.Marshal(GFCase{Field: f.name, A: a, B: b})
+					c.FailCase("first_operation_is_multiply", "gf", raw,
+						fmt.Sprintf("%s: Multiply(%d,%d) as the first operation on the field in this process = %d, clmul mod p = %d", f.name, a, b, got, want))
+					break
+				}
+			}
+		}
 		// (a) all element pairs of all six fields
 		for _, f := range fields {
 			sub := "gf_all_pairs"
